@@ -700,7 +700,9 @@ int pbtMain(int argc, char** argv, const Property<Case>& prop)
 {
     Options opt = parseOptions(argc, argv);
     Stats stats;
-    installCrashCapture(opt.failDir, prop.id);
+    // a replayed file is its own reproduction: nothing is written next to the caller when it crashes
+    if (opt.mode != "replay")
+        installCrashCapture(opt.failDir, prop.id);
 
     if (opt.mode == "replay")
     {
